@@ -80,12 +80,64 @@ class InterpProp(Prop):
         obs, world = impl.run_case(case.payload, charts)
         return obs
 
-    def normalize(self, obs):
-        # `unsupported` is a model-side flag
+    # ---- what is compared between model and implementation ------------------------------------
+    # Only the observables the property's theorems speak about: a change to the code that leaves
+    # them alone must not raise an alarm for *this* property (it will for the one it breaks).
+    cmp_eff = None          # kinds of effect-log entries compared (None = all, () = none)
+    cmp_meta = None         # names of the meta-events compared when 'meta' is in cmp_eff (None = all)
+    cmp_step = None         # micro-step fields compared (None = all): event transition entered exited sent
+    cmp_slot = None         # interpreter fields compared (None = all): config ctx time final legal
+    cmp_callbacks = True    # what recording callables received
+    cmp_err = 'full'        # 'full' | 'class' | None
+    cmp_time = True         # MacroStep.time
+    cmp_sort_guards = False # compare guard evaluations as a multiset
+    cmp_outcome = True      # kind of outcome of execute_once (step / none / error); False: nothing of the call
+
+    @staticmethod
+    def full_view(obs):
+        """everything observed (minus the model-side `unsupported` flag)"""
         o = json.loads(json.dumps(obs))
         for ob in o.get('obs', []):
-            for s in ob.get('world', {}).get('slots', []):
-                s.pop('unsupported', None)
+            for sl in (ob.get('world') or {}).get('slots', []):
+                sl.pop('unsupported', None)
+        return o
+
+    def normalize(self, obs):
+        o = json.loads(json.dumps(obs))
+        for ob in o.get('obs', []):
+            w = ob.get('world') or {}
+            for sl in w.get('slots', []):
+                sl.pop('unsupported', None)      # a model-side flag
+                if self.cmp_slot is not None:
+                    for k in list(sl):
+                        if k not in self.cmp_slot:
+                            del sl[k]
+            if not self.cmp_callbacks:
+                w.pop('callbacks', None)
+            r = ob.get('r')
+            if isinstance(r, dict) and 'outcome' in r and not self.cmp_outcome:
+                ob['r'] = None
+                r = None
+            if isinstance(r, dict) and 'outcome' in r:
+                if 'eff' in r and self.cmp_eff is not None:
+                    r['eff'] = [e for e in r['eff'] if e[0] in self.cmp_eff and
+                                (e[0] != 'meta' or self.cmp_meta is None or e[1]['ev'] in self.cmp_meta)]
+                if 'eff' in r and self.cmp_sort_guards:
+                    gs = sorted((json.dumps(e, sort_keys=True) for e in r['eff'] if e[0] == 'guard'))
+                    r['eff'] = [e for e in r['eff'] if e[0] != 'guard'] + [json.loads(g) for g in gs]
+                if r.get('step'):
+                    if not self.cmp_time:
+                        r['step'].pop('time', None)
+                    if self.cmp_step is not None:
+                        for m in r['step']['steps']:
+                            for k in list(m):
+                                if k not in self.cmp_step:
+                                    del m[k]
+                if r.get('err') is not None:
+                    if self.cmp_err is None:
+                        r['err'] = None
+                    elif self.cmp_err == 'class':
+                        r['err'] = {'class': r['err'].get('class')}
         return o
 
     # ---- oracle skeleton: walk the ops of slot 0 ----------------------------------------------
